@@ -572,6 +572,12 @@ pub fn c08_inputs(thorough: bool) -> Vec<Spec> {
 	for via in 0..3u8 {
 		out.push(Spec::Native(Native::VecsOwnedBoxed(via)));
 	}
+	// a zero-sized member at the address of the lowest lock, listed first
+	for k in [Kind::Boxed, Kind::Ref] {
+		for with_zst in [true, false] {
+			out.push(Spec::Native(Native::ZstFront(k, with_zst)));
+		}
+	}
 	for via in [1u8, 2] {
 		out.push(Spec::Native(Native::MutRefsVia(1, 3, via)));
 	}
@@ -706,6 +712,9 @@ pub fn check_c08(tier: &str) -> ! {
 						0
 					} else if matches!(s, Spec::Native(Native::VecsNew(_) | Native::VecsRefs(_) | Native::VecsFromRef | Native::VecsOwnedBoxed(_))) {
 						1
+					} else if matches!(s, Spec::Native(Native::ZstFront(..))) {
+						// the shared block of a zero-sized member and three locks: the same objects in every world
+						2
 					} else {
 						continue;
 					};
